@@ -1764,6 +1764,34 @@ func (_bnot) exec(vm *vm) {
 	vm.pc++
 }
 
+// the maximum size of a BigInt produced by a shift (same limit as in V8)
+const maxBigIntShiftBits = 1 << 30
+
+// bigIntShift implements BigInt::leftShift(x, n) for any (including negative and larger than 64 bit) shift count n.
+func (vm *vm) bigIntShift(x, n *big.Int, left bool) Value {
+	if n.Sign() < 0 {
+		left = !left
+		n = new(big.Int).Neg(n)
+	}
+	if left {
+		if x.Sign() == 0 {
+			return (*valueBigInt)(new(big.Int))
+		}
+		if !n.IsUint64() || n.Uint64() > maxBigIntShiftBits-uint64(x.BitLen()) {
+			panic(vm.r.newError(vm.r.getRangeError(), "Maximum BigInt size exceeded"))
+		}
+		return (*valueBigInt)(new(big.Int).Lsh(x, uint(n.Uint64())))
+	}
+	if !n.IsUint64() || n.Uint64() >= uint64(x.BitLen()) {
+		// everything is shifted out: floor(x / 2^n)
+		if x.Sign() < 0 {
+			return (*valueBigInt)(big.NewInt(-1))
+		}
+		return (*valueBigInt)(new(big.Int))
+	}
+	return (*valueBigInt)(new(big.Int).Rsh(x, uint(n.Uint64())))
+}
+
 type _sal struct{}
 
 var sal _sal
@@ -1775,12 +1803,7 @@ func (_sal) exec(vm *vm) {
 
 	if left, ok := left.(*valueBigInt); ok {
 		if right, ok := right.(*valueBigInt); ok {
-			n := uint((*big.Int)(right).Uint64())
-			if (*big.Int)(right).Sign() < 0 {
-				result = (*valueBigInt)(new(big.Int).Rsh((*big.Int)(left), n))
-			} else {
-				result = (*valueBigInt)(new(big.Int).Lsh((*big.Int)(left), n))
-			}
+			result = vm.bigIntShift((*big.Int)(left), (*big.Int)(right), true)
 			goto end
 		}
 		panic(errMixBigIntType)
@@ -1806,12 +1829,7 @@ func (_sar) exec(vm *vm) {
 
 	if left, ok := left.(*valueBigInt); ok {
 		if right, ok := right.(*valueBigInt); ok {
-			n := uint((*big.Int)(right).Uint64())
-			if (*big.Int)(right).Sign() < 0 {
-				result = (*valueBigInt)(new(big.Int).Lsh((*big.Int)(left), n))
-			} else {
-				result = (*valueBigInt)(new(big.Int).Rsh((*big.Int)(left), n))
-			}
+			result = vm.bigIntShift((*big.Int)(left), (*big.Int)(right), false)
 			goto end
 		}
 		panic(errMixBigIntType)
